@@ -137,6 +137,7 @@ type histRunner struct {
 	inGrp  []bool
 
 	lastResolved Op
+	listedAfter  int
 	prevVals     map[int][]prevVal // colliding keys: every value ever acknowledged (for the C13-merge-stale exclusion)
 	staleOK      map[int]string // key -> id of the known finding that tolerates an older own value
 	excluded     map[string]int
